@@ -21,10 +21,10 @@ def Pc.inStop : Pc → Bool
   | _ => false
 /-- pcs a thread can be at while it executes an activity (script, job body, closure destructor) -/
 def Pc.inBody : Pc → Bool
-  | Pc.idle | Pc.enqCS _ | Pc.afterEnq _ _ | Pc.stopCS _ | Pc.waitFlag _ | Pc.bStopCS _ | Pc.bStopJoin | Pc.bJoinBlocked | Pc.stopJoin | Pc.joinBlocked | Pc.stopDrop => true
+  | Pc.idle | Pc.enqCS _ | Pc.afterEnq _ _ | Pc.stopCS _ | Pc.peekCS _ | Pc.peekDone _ _ | Pc.waitFlag _ | Pc.bStopCS _ | Pc.bStopJoin | Pc.bJoinBlocked | Pc.stopJoin | Pc.joinBlocked | Pc.stopDrop => true
   | _ => false
 def Pc.bodyPhase : Pc → Bool
-  | Pc.idle | Pc.enqCS _ | Pc.afterEnq _ _ | Pc.stopCS _ | Pc.waitFlag _ | Pc.bStopCS _ | Pc.bStopJoin | Pc.bJoinBlocked | Pc.stopJoin | Pc.joinBlocked | Pc.stopDrop | Pc.wFlush => true
+  | Pc.idle | Pc.enqCS _ | Pc.afterEnq _ _ | Pc.stopCS _ | Pc.peekCS _ | Pc.peekDone _ _ | Pc.waitFlag _ | Pc.bStopCS _ | Pc.bStopJoin | Pc.bJoinBlocked | Pc.stopJoin | Pc.joinBlocked | Pc.stopDrop | Pc.wFlush => true
   | _ => false
 
 structure Inv (c : Cfg) (s : State) : Prop where
@@ -33,6 +33,7 @@ structure Inv (c : Cfg) (s : State) : Prop where
   wf_nw : 0 < c.nw
   wf_nt : c.nw ≤ c.nt
   wf_b : c.hasB = true → c.nw < c.nt
+  wf_cur : c.curNullOk = true
   -- who can be where
   t_out : ∀ t, c.nt ≤ t → s.pc t = Pc.done
   t_worker : ∀ t, (s.pc t).isWorker = true → t < c.nw
@@ -173,6 +174,7 @@ macro "inv_step" h:ident : tactic => `(tactic| (
   case wf_nw => exact ($h).wf_nw
   case wf_nt => exact ($h).wf_nt
   case wf_b => exact ($h).wf_b
+  case wf_cur => exact ($h).wf_cur
   case' t_out => (have hf_ := ($h).t_out; inv_simp; try (first | exact hf_ | inv_grind | (have hg0_ := ($h).t_worker; have hg1_ := ($h).t_ret; have hg2_ := ($h).t_script; have hg3_ := ($h).t_noB; have hg4_ := ($h).t_enq; have hg5_ := ($h).t_enq2; have hg6_ := ($h).n_noexit; have hg7_ := ($h).wf_nt; inv_grind) | (have hh_ := $h; cases hh_; inv_grind)))
   case' t_worker => (have hf_ := ($h).t_worker; inv_simp; try (first | exact hf_ | inv_grind | (have hg0_ := ($h).t_out; have hg1_ := ($h).t_ret; have hg2_ := ($h).t_script; have hg3_ := ($h).t_noB; have hg4_ := ($h).t_enq; have hg5_ := ($h).t_enq2; have hg6_ := ($h).n_noexit; have hg7_ := ($h).wf_nt; inv_grind) | (have hh_ := $h; cases hh_; inv_grind)))
   case' t_ret => (have hf_ := ($h).t_ret; inv_simp; try (first | exact hf_ | inv_grind | (have hg0_ := ($h).t_out; have hg1_ := ($h).t_worker; have hg2_ := ($h).t_script; have hg3_ := ($h).t_noB; have hg4_ := ($h).t_enq; have hg5_ := ($h).t_enq2; have hg6_ := ($h).n_noexit; have hg7_ := ($h).wf_nt; inv_grind) | (have hh_ := $h; cases hh_; inv_grind)))
